@@ -1,5 +1,6 @@
 import PeptVerif.Model.Combinatoric
 import PeptVerif.Model.Serialize
+import PeptVerif.Model.SequenceFuncs
 /-!
 The combinatorial expansions at text level (C19), literally as the Python writes them, on top of the parser and
 serializer models of C01 (Model/Parser.lean, Model/Serialize.lean). Mathlib-free.
@@ -59,13 +60,6 @@ def serializeAll : List Parsed → Except Err (List (List Char))
       match serializeAll t with
       | .error e => .error e
       | .ok l => .ok (s :: l)
-
-/-- `sequence_to_annotation`: a multi-chain input is a ValueError -/
-def sequenceToAnnotation (s : List Char) : Except Err Annotation :=
-  match parse true s with
-  | .error e => .error e
-  | .ok (.single a) => .ok a
-  | .ok (.multi _ _) => .error .value
 
 /-- a module-level function of sequence/combinatoric.py applied to a string -/
 def expandStr (f : Annotation → Option Nat → List (Except Err Parsed)) (s : List Char) (size : Option Nat) :
